@@ -209,6 +209,16 @@ CLAIMED = {
         technique='contracts on the real methods (with-protocol, loop invariant, string terms), pyvc -> z3',
         design_ref='7/C23',
     ),
+    'C26': dict(
+        text='TimeLimitedMaxSizeCache.lookup split into atomic segments at its awaits, helpers (_put/_remove/_over_capacity/_evict_oldest) inlined from their real bodies; containers as finite maps with maintained cardinality. '
+        'Invariant at every await/exit, all schedules, any number of tasks: the three containers agree on keys and size, size <= num_slots, expiry = store time + lifetime, exactly one load in flight per key in _futures. '
+        'Rely/guarantee: a task never touches another task\'s future nor stores a key another task is loading (stability lemmas discharged). '
+        'Obligations: hit returned only if expiry > now (age < lifetime); create_task only with no load of that key in flight; _put only of an absent key; a miss returns the loaded value; errors are the load\'s or the lookup\'s own cancellation. '
+        'The isolation obligation (cancelling the task that started the load must not cancel the shared load) fails on the unchanged tree: known finding F7, replayed with a two-task history on the real class.',
+        note=COMMON_NOTE + 'Assumed: asyncio switches only at await and propagates cancellation into an awaited unshielded future; time.monotonic_ns non-decreasing; prom_async_time passes the awaited outcome through; cardinality counters equal cardinalities (induction over operations). shutdown() is outside the contract.',
+        technique='atomic-segment rely/guarantee contracts on the real coroutine (pyvc + segments + inlined helpers) -> z3',
+        design_ref='7/C26',
+    ),
 }
 
 NOT_YET = 'not yet brought within the verifier\'s reach in this build (planned in DESIGN.md section 7); no claim is made'
